@@ -41,6 +41,10 @@ def run(idx: Index, rep: Report, tier: str):
     check_index_placement(idx, rep)
     check_uhf_placement(idx, rep)
     check_padding_spin_sorts(idx, rep)
+    # the energy contracted from spin-resolved density matrices uses the unrestricted active-space integrals: their spin blocks have to be folded consistently
+    from .C04 import check_uhf_spin_sorts
+    check_uhf_spin_sorts(idx, rep)
+    check_open_shell_rdm_sum(idx, rep)
     rep.stats.update({"alias_" + k: v for k, v in an.stats.items()})
 
 
@@ -269,3 +273,64 @@ def check_padding_spin_sorts(idx: Index, rep: Report):
                                what="every index variable sits on a tensor axis of the spin it was counted for (the mixed block is alpha, alpha, beta, beta)",
                                reason="; ".join(f"axis {k} of {tgt.value.id} is {want} but `{v}` ranges over a {got} count" for k, v, got, want in bad))
     rep.floor("spin-sorted stores in the unrestricted padding", n, 12)
+
+
+
+def check_open_shell_rdm_sum(idx: Index, rep: Report):
+    """For a restricted-open-shell reference the pyscf engines work with spin-resolved quantities and hand back the spin blocks (alpha, beta) / (aa, ab, bb).  The
+    solver then has to return what its interface documents and what energy_from_rdms contracts: the spin-summed matrices a + b and aa + 2 ab + bb.  get_rdm of the
+    coupled-cluster and of the MP2 solver is folded with engine stand-ins that return distinguishable blocks; for an unrestricted reference the blocks are passed on."""
+    import numpy as np
+    from ..consteval import Raised, Rec, Undecidable
+    from ..rules import circuitsem as cs
+    rule = "K8.open-shell-rdm-sum"
+    a, b, aa, ab, bb = (np.array([[float(x)]]) for x in (2, 3, 5, 7, 11))
+    blocks4 = tuple(np.array([[[[float(x)]]]]) for x in (5, 7, 11))
+
+    class _Engine:
+        _sa_model = True
+        t1, t2 = "t1", "t2"
+
+        def __init__(self, open_shell):
+            self.open_shell = open_shell
+
+        def make_rdm1(self):
+            return (a, b) if self.open_shell else a + b
+
+        def make_rdm2(self):
+            return blocks4 if self.open_shell else blocks4[0] + 2 * blocks4[1] + blocks4[2]
+
+        def solve_lambda(self, t1, t2):
+            return "l1", "l2"
+    cases = [("tangelo/algorithms/classical/mp2_solver.py", "MP2SolverPySCF", "mp2_fragment"), ("tangelo/algorithms/classical/ccsd_solver.py", "CCSDSolverPySCF", "cc_fragment")]
+    n = 0
+    for rel, cname, attr in cases:
+        f = idx.function(f"{rel}::{cname}.get_rdm")
+        for label, spin, uhf in (("closed shell, restricted", 0, False), ("open shell, restricted (ROHF)", 1, False), ("open shell, unrestricted", 1, True)):
+            open_shell = spin != 0 or uhf
+            me = Rec(cname, {attr: _Engine(open_shell), "frozen": None, "spin": spin, "uhf": uhf, "rdms": None})
+            unres = {"_umake_rdm1": lambda a_, k: (a, b), "_umake_rdm2": lambda a_, k: blocks4, "_make_rdm1": lambda a_, k: a + b, "_make_rdm2": lambda a_, k: blocks4[0] + 2 * blocks4[1] + blocks4[2],
+                     "_gamma1_intermediates": lambda a_, k: "d1", "_gamma2_outcore": lambda a_, k: "d2", "_ugamma1_intermediates": lambda a_, k: "d1", "_ugamma2_outcore": lambda a_, k: "d2",
+                     "lib.H5TmpFile": lambda a_, k: "file"}
+            fo = cs.make_folder(idx, rel, ctors=unres)
+            fo.real_arrays = True
+            try:
+                one, two = fo.run_function(f.node, {"self": me})
+            except Undecidable as e:
+                raise AnalysisError(f"{cname}.get_rdm not foldable ({label}): {e}")
+            except Raised as e:
+                rep.violation(rule, f, f.node, text=f"{cname}.get_rdm, {label}", what="density matrices are available for every reference the solver accepts", reason=f"raises {e.exc_type}")
+                continue
+            n += 1
+            if uhf:
+                ok = isinstance(one, tuple) and len(one) == 2 and isinstance(two, tuple) and len(two) == 3
+                want = "the spin blocks (alpha, beta) and (aa, ab, bb)"
+            else:
+                ok = isinstance(one, np.ndarray) and one.shape == (1, 1) and float(one[0, 0]) == 5.0 and isinstance(two, np.ndarray) and float(np.ravel(two)[0]) == 30.0
+                want = "the spin-summed matrices alpha + beta and aa + 2 ab + bb"
+            rep.decide(ok, rule, f, f.node, text=f"{cname}.get_rdm, {label}: returns {want}",
+                       what="for a restricted (closed- or open-shell) reference the solver returns spin-summed density matrices, the ones energy_from_rdms contracts with the "
+                            "molecular integrals; for an unrestricted reference the spin blocks",
+                       reason=f"returns a one-particle {'tuple of ' + str(len(one)) + ' blocks' if isinstance(one, tuple) else 'matrix ' + str(np.ravel(one)[:1])} and a two-particle "
+                              f"{'tuple of ' + str(len(two)) + ' blocks' if isinstance(two, tuple) else 'array ' + str(np.ravel(two)[:1])}")
+    rep.floor("get_rdm reference kinds folded", n, 6)
